@@ -237,6 +237,9 @@ def run(chk, repo):
     from rules.shared import memo_params
     chk.clauses.append('C17.g exon / intron index look-ups of the annotation are not served from a cache keyed by less than the transcript they were computed for')
     memo_params(chk, repo, 'C17.g', ['gtf.GenomicAnnotation:GenomicAnnotation.', 'gtf.GenomicAnnotationOnDisk:GenomicAnnotationOnDisk.', 'gtf.TranscriptAnnotationModel:'], floor=0)
+    from rules.shared import instance_state_per_instance
+    chk.clauses.append('C17.k (R-FRESH) the caches of loaded gene / transcript models behind the annotation, and every other container a gtf / circ / parser class changes in place through self, are bound per instance by a constructor (two annotations in one process never serve each other\'s entries)')
+    instance_state_per_instance(chk, repo, 'C17.k', ['gtf', 'circ', 'parser.CIRCexplorerParser'], floor=4)
     from rules.shared import kwname
     chk.clauses.append('C17.kw (shared R-THREAD) parameters handed on as keyword arguments keep their name: no `a=b` between two parameters of one function')
     kwname(chk, repo, 'C17.kw', ['parser.CIRCexplorerParser', 'cli.parse_circexplorer'], floor=0)
